@@ -182,13 +182,30 @@ def subst_copies(ctx, f, node, expr, predicates=False):
             return None
         v = unawait(d.value)
         k = varkey(v)
-        if not k and predicates and isinstance(v, ast.Call) and not v.keywords and all(isinstance(a, ast.Name) for a in v.args):
-            # a named predicate result (`is_dir = os.path.isdir(p)`, `is_io = isinstance(p, BytesIO)`): the name stands for the test, as long as
-            # its arguments have not been assigned since
-            fn_ = v.func
-            pure = (isinstance(fn_, ast.Name) and fn_.id == "isinstance") or \
-                (isinstance(fn_, ast.Attribute) and isinstance(fn_.value, ast.Attribute) and isinstance(fn_.value.value, ast.Name) and fn_.value.value.id == "os" and fn_.value.attr == "path")
-            if pure and all(df.reaching(node, a.id) == df.reaching_out(d.node, a.id) for a in v.args):
+        if not k and predicates:
+            # a named predicate result (`is_dir = os.path.isdir(p)`, `is_io = isinstance(p, BytesIO)`, or a not/and/or combination of such): the
+            # name stands for the test, as long as the arguments have not been assigned since
+            def pure_call(c):
+                if not (isinstance(c, ast.Call) and not c.keywords and all(isinstance(a, ast.Name) for a in c.args)):
+                    return False
+                fn_ = c.func
+                return (isinstance(fn_, ast.Name) and fn_.id == "isinstance") or \
+                    (isinstance(fn_, ast.Attribute) and isinstance(fn_.value, ast.Attribute) and isinstance(fn_.value.value, ast.Name) and fn_.value.value.id == "os" and fn_.value.attr == "path")
+
+            def leaves(e):
+                if isinstance(e, ast.BoolOp):
+                    out = []
+                    for x in e.values:
+                        r = leaves(x)
+                        if r is None:
+                            return None
+                        out += r
+                    return out
+                if isinstance(e, ast.UnaryOp) and isinstance(e.op, ast.Not):
+                    return leaves(e.operand)
+                return [e] if pure_call(e) else None
+            ls = leaves(v)
+            if ls and all(df.reaching(node, a.id) == df.reaching_out(d.node, a.id) for c in ls for a in c.args):
                 return v
             return None
         if not k:
